@@ -121,6 +121,51 @@ int main(int argc, char **argv) {
       add(name, "asmbig", src + table, false);
     }
   }
+  // Binaries whose length is a whole number of 4096-byte pages behind the length word (and one word
+  // more / less): the program prints and exits with the last word of the file's image.  The table is
+  // sized by assembling once and measuring, so nothing is assumed about the file format.
+  if (genCount > 0) {
+    auto assemble = [&](const std::string &src) -> size_t {
+      sim::fs::reset();
+      sim::Trapped t = sim::runTrapped([&]() {
+        hexasm::Lexer lexer; hexasm::Parser parser(lexer);
+        lexer.loadBuffer(src);
+        auto tree = parser.parseProgram();
+        hexasm::CodeGen cg(tree);
+        cg.emitBin("probe.bin");
+        return 0;
+      });
+      return t.kind == sim::Trapped::RETURNED && t.status == 0 ? sim::fs::get("probe.bin").size() : 0;
+    };
+    unsigned id = 0;
+    for (unsigned pages : {1u, 2u, 5u}) for (int delta : {0, 4, -4}) {
+      sim::Rng r(sim::mix64(seed, 0x9A6E, id));
+      auto source = [&](unsigned fill) {
+        std::string src = "BR start\nDATA 199000\nstart\nLDAM last\nLDBM 1\nSTAI 2\nLDAC 0\nSTAI 3\nLDAC 1\nOPR SVC\nLDAM last\nLDBM 1\nSTAI 2\nLDAC 0\nOPR SVC\n";
+        for (unsigned k = 0; k < fill; k++) src += "DATA " + std::to_string(k & 255) + "\n";
+        src += "last\nDATA " + std::to_string(65 + r.below(26)) + "\n";
+        return src;
+      };
+      size_t base = assemble(source(0));
+      long want = 4 + (long)pages * 4096 + delta;
+      if (base == 0 || (long)base > want || (want - (long)base) % 4 != 0) { id++; continue; }
+      long fill = (want - (long)base) / 4;
+      std::string src;
+      bool ok = false;
+      for (int it = 0; it < 6 && fill >= 0; it++) {          // operands grow with the table: measure and correct
+        src = source((unsigned)fill);
+        long got = (long)assemble(src);
+        if (got == want) { ok = true; break; }
+        if (got == 0 || (want - got) % 4 != 0) break;
+        fill += (want - got) / 4;
+      }
+      if (!ok) { id++; continue; }                             // leave it out rather than guess
+      std::string name = "page" + std::to_string(id++);
+      Json in = Json::array(); in.push("");
+      inputs[name] = in;
+      add(name, "asmpage", src, false);
+    }
+  }
   sim::writeFile(argv[2], out.dump() + "\n");
   std::fprintf(stderr, "mkcorpus: %zu images\n", out.size());
   return out.size() ? 0 : 1;
